@@ -99,6 +99,17 @@ func (c *conditionLocker) waitIfLock() {
 	c.lockMu.Unlock()
 }
 
+// waitIfLockThen waits until the locker is unlocked and then calls f before
+// anybody else can lock it again.
+func (c *conditionLocker) waitIfLockThen(f func()) {
+	c.lockMu.Lock()
+	for c.bLock {
+		c.lockCnd.Wait()
+	}
+	f()
+	c.lockMu.Unlock()
+}
+
 type SecureChannel struct {
 	endpointURL string
 
@@ -664,6 +675,8 @@ func (s *SecureChannel) open(ctx context.Context, instance *channelInstance, req
 		RequestedLifetime:     s.cfg.Lifetime,
 	}
 
+	s.pendingReq.Add(1)
+	verifhook.Point("sc.req.pendingAdded")
 	return s.sendRequestWithTimeout(ctx, req, reqID, s.openingInstance, nil, s.cfg.RequestTimeout, func(v ua.Response) error {
 		debug.Printf("OpenSecureChannelResponse handler")
 		resp, ok := v.(*ua.OpenSecureChannelResponse)
@@ -751,6 +764,14 @@ func (s *SecureChannel) handleOpenSecureChannelRequest(reqID uint32, svc ua.Requ
 
 	s.cfg.Lifetime = req.RequestedLifetime
 	s.cfg.SecurityMode = req.SecurityMode
+
+	// the owner of a server side channel decides which security settings it accepts
+	if s.kind == server && s.cfg.AcceptSecurity != nil {
+		if err := s.cfg.AcceptSecurity(s.cfg.SecurityPolicyURI, s.cfg.SecurityMode); err != nil {
+			debug.Printf("uasc %d: OpenSecureChannel with %s / %s refused: %v", s.c.ID(), s.cfg.SecurityPolicyURI, s.cfg.SecurityMode, err)
+			return err
+		}
+	}
 
 	// I had to do the encryption setup in the chunk decoding logic because you have to
 	// decrypt the thing before you even know you have an open message.
@@ -936,8 +957,8 @@ func (s *SecureChannel) sendRequestWithTimeout(
 	timeout time.Duration,
 	h ResponseHandler) error {
 
-	s.pendingReq.Add(1)
-	verifhook.Point("sc.req.pendingAdded")
+	// the caller has added the request to pendingReq. It stops being
+	// pending for a token renewal once it has been written.
 	respRequired := h != nil
 
 	ch, err := s.sendAsyncWithTimeout(ctx, req, reqID, instance, authToken, respRequired, timeout)
@@ -1005,9 +1026,17 @@ func (s *SecureChannel) SendRequest(ctx context.Context, req ua.Request, authTok
 }
 
 func (s *SecureChannel) SendRequestWithTimeout(ctx context.Context, req ua.Request, authToken *ua.NodeID, timeout time.Duration, h ResponseHandler) error {
-	s.reqLocker.waitIfLock()
+	// Count the request as pending before the renewal gate can be locked
+	// again and only then pick the channel instance. A renewal waits for all
+	// pending requests before it replaces the instance. If the request was
+	// counted after the instance had been picked then a renewal could slip in
+	// between and the request would be sent with the sequence number and the
+	// security token of the instance which was just replaced.
+	s.reqLocker.waitIfLockThen(func() { s.pendingReq.Add(1) })
+	verifhook.Point("sc.req.pendingAdded")
 	active, err := s.getActiveChannelInstance()
 	if err != nil {
+		s.pendingReq.Done()
 		return err
 	}
 	verifhook.Point("sc.req.gotActive")
